@@ -79,7 +79,11 @@ func (se *SessionExecutor) handleQuery(reqCtx *util.RequestContext, sql string) 
 		// if non-transaction connection is limited, gaea will not close client connection
 		err = fmt.Errorf(mysql.ErrClientQpsLimitedMsg)
 	} else {
-		if ns.supportMultiQuery && se.session.c.capability&mysql.ClientMultiStatements != 0 {
+		// The rewritten text of COM_STMT_EXECUTE is one statement by definition (MySQL refuses to
+		// prepare multi-statement text): it must never go through the splitter, whose scanner does
+		// not know the session's sql_mode and would cut a bound value containing ';' (for example
+		// '\'';' under NO_BACKSLASH_ESCAPES) into several statements.
+		if ns.supportMultiQuery && se.session.c.capability&mysql.ClientMultiStatements != 0 && !reqCtx.IsPrepareSQL() {
 			r, err = se.doMultiStmts(reqCtx, sql)
 		} else {
 			r, err = se.doQuery(reqCtx, sql)
